@@ -6,6 +6,7 @@ induction over whole histories (`run_inv`).
 import NeoModel.Model.MptRc
 import NeoModel.Proofs.MptRcExact
 import NeoModel.Proofs.MptRcRun
+import NeoModel.Proofs.MptRcRestore
 set_option linter.unusedSimpArgs false
 namespace NeoModel.MptRc
 open NeoModel.Mpt
@@ -240,6 +241,38 @@ theorem commitL_nil (H : Bytes → Bytes) (s : St) (idx : Nat) (ops : List SubOp
     commitL H s idx ops [] = commit H s idx ops := by
   simp only [commitL, computeL, commit, compute, fold_applySub, applyActs_evs]
 
+theorem nd_restore (H : Bytes → Bytes) (mode : Mode) (l : List Node) : ∀ (s : Store), StoreND s →
+    StoreND (l.foldl (incrRef H mode) s) := by
+  induction l with
+  | nil => intro s h; exact h
+  | cons n r ih =>
+    intro s h
+    apply ih
+    unfold incrRef
+    split
+    · split
+      · exact nd_setCell s _ (some _) h
+      · exact nd_setCell s _ (some _) h
+    · exact nd_setCell s _ (some _) h
+
+/-- a state jump re-establishes the history invariant: the store is exact for the restored trie, the
+map is empty, the only retained height is the sync point. -/
+theorem jump_inv (H : Bytes → Bytes) (mode : Mode) (hrc : mode.rc = true) (top : Option Nat) (s : St)
+    (hinv : Inv H mode top s) (idx : Nat) (t : Node) : Inv H mode (some idx) (jumpSt H s idx t) := by
+  have hx : Exact H mode (restoreAll H s.mode [] t) t := by rw [hinv.mode_eq]; exact restore_exact_store H mode hrc t
+  exact {
+    mode_eq := hinv.mode_eq
+    good := ⟨List.nodup_nil, fun _ _ h => by simp [jumpSt, mget] at h, fun _ _ h => by simp [jumpSt, mget] at h,
+      fun _ _ h => by simp [jumpSt, mget] at h⟩
+    exact := hx
+    nd := nd_restore H s.mode (positions t) [] List.nodup_nil
+    tops := fun e he => by
+      simp only [jumpSt, List.mem_singleton] at he
+      subst he; exact ⟨idx, rfl, Nat.le_refl _⟩
+    kept := fun _ e he _ => by
+      simp only [jumpSt, List.mem_singleton] at he
+      subst he; exact kept_of_exact hx idx }
+
 /-- C11.2/3: by induction over the history — blocks with strictly increasing heights (on a fully or
 partly loaded trie, any re-loads from the store interleaved), collections at
 any height, restarts — `Flush` never panics and the invariant holds at the end. -/
@@ -268,6 +301,10 @@ theorem run_inv (H : Bytes → Bytes) (mode : Mode) (hrc : mode.rc = true) (ops 
     | reset =>
       simp only [Heights] at hh
       obtain ⟨s', top', hr, hinv'⟩ := ih top (reset s) (reset_inv H mode top s hinv) hh
+      exact ⟨s', top', by simp only [runOps, stepOp, hr], hinv'⟩
+    | jump idx t =>
+      simp only [Heights] at hh
+      obtain ⟨s', top', hr, hinv'⟩ := ih (some idx) (jumpSt H s idx t) (jump_inv H mode hrc top s hinv idx t) hh
       exact ⟨s', top', by simp only [runOps, stepOp, hr], hinv'⟩
 
 end NeoModel.MptRc
